@@ -2,6 +2,9 @@ import Dmn.Model.ServerModel
 import Dmn.Lemmas.Json
 import Dmn.Lemmas.Server
 import Dmn.Lemmas.Dto
+import Dmn.Lemmas.JsonNumberBridge
+import Dmn.Lemmas.DecPlain
+import Dmn.Lemmas.DecShape
 
 /-!
 # C18 — the HTTP service always answers well-formed JSON reflecting the workspace
@@ -12,8 +15,10 @@ Proved here, for all inputs:
   every value — strings and context keys with any characters (quotes, backslashes, control
   and non-ASCII characters), booleans, nulls, lists, contexts, and the kinds written as the
   string of their text — provided its number texts are numbers of the JSON grammar
-  (`numbersOk`; number printing is the subject of C07, and finding F17c = C07's F1 lies
-  outside: `jsonify_counterexample_number`).  The `{"data":…}` / `{"errors":[…]}` envelopes
+  (`numbersOk`; number printing is the subject of C07, whose theorem `json_number` shows, at
+  full strength since the repair 4df4c0b of F17c = C07's F1, that the text of every finite
+  number is a JSON number; `jsonify_counterexample_number` keeps the old witness text as an
+  example of what the hypothesis excludes).  The `{"data":…}` / `{"errors":[…]}` envelopes
   likewise.
 * (ii) TCK DTOs: `fromDto (toDto v) = v` for typed values whose scalar texts are canonical
   for the text readers (`dto_roundtrip`).
@@ -36,10 +41,12 @@ open Dmn.WS Dmn.Json
 /-! ## (i) Rendering -/
 
 /-
--- FULL STATEMENT (not provable of the current code, see finding F17c = C07 F1)
-theorem jsonify_decodes_all (v : Value) : Json.decode (v.jsonify()) = some (toJson v)
-for every value, number texts included: `FeelNumber::jsonify` writes `-0.00000015` as
-`0.000000-15`, which is no JSON number.  Number texts are a parameter of this model.
+-- Number texts are a parameter of this model (`JV.num` carries the text): the statement for
+-- every FEEL value is the composition of `jsonify_decodes` below with C07's `json_number`
+-- (the text `FeelNumber::jsonify` writes is a JSON number). Until 4df4c0b the second half
+-- failed (`-0.00000015` was written as `0.000000-15`, finding F17c = C07 F1). The two number
+-- grammars (`Json.isNumber` here, `DecString` in C07) are separate definitions; the harness
+-- decodes every response body with an independent JSON reader.
 -/
 
 /-- For every value built from strings of any scalar values (quotes, backslashes, control
@@ -55,8 +62,8 @@ example : numbersOk (.ctx [(['a', '"', 'b'], .str ['a', '"', 'b', '\\', 'c', '\n
     (['n'], .list [.num ['-', '1', '.', '5'], .null, .str ['é', '/', '🙏']])]) = true := by
   decide
 
-/-- F17c: the number text `0.000000-15` (what `FeelNumber::jsonify` writes for `-0.00000015`)
-is outside the hypothesis, and the rendering is then not a JSON document. -/
+/-- The number text `0.000000-15` (what `FeelNumber::jsonify` wrote for `-0.00000015` before
+4df4c0b) is outside the hypothesis, and the rendering is then not a JSON document. -/
 theorem jsonify_counterexample_number :
     numbersOk (.num ['0', '.', '0', '0', '0', '0', '0', '0', '-', '1', '5']) = false ∧
     Json.decode (jsonify (.num ['0', '.', '0', '0', '0', '0', '0', '0', '-', '1', '5'])) ≠
@@ -64,6 +71,20 @@ theorem jsonify_counterexample_number :
   refine ⟨by decide, ?_⟩
   have : (Json.decode (jsonify (.num ['0', '.', '0', '0', '0', '0', '0', '0', '-', '1', '5']))).isNone = true := by decide
   intro h; rw [h] at this; cases this
+
+/-- The hypothesis `numbersOk` holds of every number the evaluator can hand to `jsonify`: the
+plain text of a finite decimal128 number (C07: `plain_eq`, `plainSpec_json`) is accepted by this
+model's JSON number automaton (`Lemmas/JsonNumberBridge.lean`) — so a number result decodes to
+itself, for every number. -/
+theorem number_jsonify_decodes (d : D128) (hwf : D128.WF d) :
+    ∃ t, D128.plain d = some t ∧ numbersOk (.num t) = true ∧
+      Json.decode (jsonify (.num t)) = some (toJson (.num t)) := by
+  refine ⟨D128.plainSpec d, D128.plain_eq d hwf, ?_, ?_⟩
+  · exact JsonBridge.isNumber_of_isJsonNumber _ (D128.plainSpec_json d)
+  · exact jsonify_decodes _ (JsonBridge.isNumber_of_isJsonNumber _ (D128.plainSpec_json d))
+
+/-- non-vacuity at the old witness of F17c: `-0.00000015` -/
+example : D128.WF ⟨true, 15, -8⟩ ∧ D128.plain ⟨true, 15, -8⟩ = some "-0.00000015".toList := by decide
 
 /-- `json_escape` is inverted by the decoder's string reader for every text. -/
 theorem escape_decodes (s : List Char) : Json.decode (quote s) = some (.str s) :=
